@@ -2,7 +2,21 @@ import Bpmn.Props.C13
 import Bpmn.Props.C13Current
 open Bpmn.Props.C13
 #print axioms C13_holds
+#print axioms never_early
+#print axioms never_early_one_shot
+#print axioms wake_le_clock
+#print axioms one_shot_once
+#print axioms one_shot_fires
+#print axioms cycle_count_le
+#print axioms cycle_count_exact
+#print axioms cycle_progress
+#print axioms cycle_starts
+#print axioms cycle_spacing
+#print axioms cycle_end
 #print axioms silent_after
+#print axioms cancel_observed
+#print axioms silent_after_cancel
+#print axioms cancel_race_may_fire_once
 #print axioms current_mock_channel_caps
 #print axioms current_timer_channel_unbuffered
 #print axioms current_loop_select_shape
